@@ -7,34 +7,29 @@ both `ToColumnSeriesMap` decoders, the composition loop of `executeQuery`); msgp
 on the dataset's exported fields (trusted; exercised for real by the correspondence run).  Column
 values are opaque byte strings of the element type's size.
 
-The full statement is false of the code for zero-length series and for buckets whose column
-types differ (`Append` compares names only): counterexample theorems below, and `C27_partial`
-proves the round trip for any number of buckets of any lengths ≥ 1 with these classes excluded.
+Two defects found by this check have been repaired in the code and the model moved with it (the
+model reads each variant off the regenerated skeletons, `Mkts.Numpy.appendChecksTypes`,
+`guardsNoColumns`, `emptyBucketDecoded`; the `code_*` theorems below pin the repaired variants):
+* C27-F13 series without rows keep their columns in both decoders and are no longer dropped;
+* C27-F27 `Append` refuses a series whose column types differ from the dataset's.
+With them the property holds at full strength: `C27_roundtrip`.
 -/
 namespace Mkts.Props.C27
 open Mkts.Rows Mkts.Numpy Mkts.Bytes
 
 /-- bucket lists the property speaks about: at least one bucket, distinct normalised keys
-(`TimeBucketKey.String()` is always normalised), and per series distinct column names
-(invariant of `AddColumn`), wire-supported element types, columns of the series' length,
-elements of their type's size; all series of one dataset have the same column names in the
-same order (otherwise `Append` refuses, which is the designed behaviour) -/
+(`TimeBucketKey.String()` is always normalised), and per series at least one column, distinct
+column names (invariant of `AddColumn`), wire-supported element types, columns of the series'
+length (zero included), elements of their type's size; all series of one dataset have the same
+column names and element types in the same order (otherwise `Append` refuses, which is the
+designed behaviour) -/
 def ValidBuckets (bs : List (String × ColumnSeries)) : Prop :=
   bs ≠ [] ∧ (bs.map (·.1)).Nodup ∧ (∀ b ∈ bs, ValidBucket b) ∧
-  ∀ b ∈ bs, ∀ b' ∈ bs, b.2.cols.map (·.name) = b'.2.cols.map (·.name)
-
-/-- hypothesis `nonempty_series`: every series has at least one row (hence one column) -/
-def nonempty_series (bs : List (String × ColumnSeries)) : Prop := ∀ b ∈ bs, 0 < b.2.len
-/-- hypothesis `same_types`: columns of the same position have the same element type in all series -/
-def same_types (bs : List (String × ColumnSeries)) : Prop :=
-  ∀ b ∈ bs, ∀ b' ∈ bs, b.2.cols.map (·.typ) = b'.2.cols.map (·.typ)
+  (∀ b ∈ bs, ∀ b' ∈ bs, b.2.cols.map (·.name) = b'.2.cols.map (·.name)) ∧
+  (∀ b ∈ bs, ∀ b' ∈ bs, b.2.cols.map (·.typ) = b'.2.cols.map (·.typ))
 
 instance (bs : List (String × ColumnSeries)) : Decidable (ValidBuckets bs) := by
   unfold ValidBuckets ValidBucket; infer_instance
-instance (bs : List (String × ColumnSeries)) : Decidable (nonempty_series bs) := by
-  unfold nonempty_series; infer_instance
-instance (bs : List (String × ColumnSeries)) : Decidable (same_types bs) := by
-  unfold same_types; infer_instance
 
 /-- composing the dataset succeeds and both decoders return exactly the original buckets
 (keys, column names, column order, element types, values) -/
@@ -42,100 +37,61 @@ def RoundTrips (bs : List (String × ColumnSeries)) : Prop :=
   ∃ n, compose bs = .ok (some n) ∧ n.toColumnSeriesMap = .ok (expectCSM bs) ∧
     n.toColumnSeriesMapClient = .ok (expectCSM bs)
 
-/-- The property at full strength. -/
-def C27_full : Prop := ∀ bs, ValidBuckets bs → RoundTrips bs
-
-/-- Round trip for any number of buckets and any lengths ≥ 1, all wire types, all values. -/
-theorem C27_partial (bs : List (String × ColumnSeries)) (hv : ValidBuckets bs)
-    (h1 : nonempty_series bs) (h2 : same_types bs) : RoundTrips bs := by
-  obtain ⟨hne, hk, hb, hn⟩ := hv
+/-- The property at full strength: any number of buckets, any lengths including zero, all wire
+types, all values. -/
+theorem C27_roundtrip (bs : List (String × ColumnSeries)) (hv : ValidBuckets bs) : RoundTrips bs := by
+  obtain ⟨hne, hk, hb, hn, ht⟩ := hv
   cases bs with
   | nil => exact absurd rfl hne
   | cons b0 rest =>
-    obtain ⟨n, h, ha, hb', _, _⟩ := compose_roundtrip b0 rest hk hb h1
-      (fun b hb' => shapes_of_names_types _ _ (hn b hb' b0 (by simp)) (h2 b hb' b0 (by simp)))
+    obtain ⟨n, h, ha, hb', _, _⟩ := compose_roundtrip b0 rest hk hb
+      (fun b hb' => shapes_of_names_types _ _ (hn b hb' b0 (by simp)) (ht b hb' b0 (by simp)))
     exact ⟨n, h, ha, hb'⟩
 
-/-- Single-dataset view: inside the composed dataset every bucket's row range
-`[StartIndex, StartIndex+Length)` decodes to that bucket's columns, and the bookkeeping maps hold
-the running offsets and the lengths. -/
-theorem C27_bookkeeping (bs : List (String × ColumnSeries)) (hv : ValidBuckets bs)
-    (h1 : nonempty_series bs) (h2 : same_types bs) :
+/-- Inside the composed dataset the bookkeeping maps hold the running offsets and the lengths. -/
+theorem C27_bookkeeping (bs : List (String × ColumnSeries)) (hv : ValidBuckets bs) :
     ∃ n, compose bs = .ok (some n) ∧ n.startIndex = starts 0 bs ∧ n.lengths = lens bs := by
-  obtain ⟨hne, hk, hb, hn⟩ := hv
+  obtain ⟨hne, hk, hb, hn, ht⟩ := hv
   cases bs with
   | nil => exact absurd rfl hne
   | cons b0 rest =>
-    obtain ⟨n, h, _, _, hs, hl⟩ := compose_roundtrip b0 rest hk hb h1
-      (fun b hb' => shapes_of_names_types _ _ (hn b hb' b0 (by simp)) (h2 b hb' b0 (by simp)))
+    obtain ⟨n, h, _, _, hs, hl⟩ := compose_roundtrip b0 rest hk hb
+      (fun b hb' => shapes_of_names_types _ _ (hn b hb' b0 (by simp)) (ht b hb' b0 (by simp)))
     exact ⟨n, h, hs, hl⟩
 
-/-! ## counterexamples (replayed on the implementation: corpus/C27/known_*.ops) -/
+/-! ## the repaired variants are the ones in the source (regenerated skeletons) -/
+
+theorem code_append_checks_types : appendChecksTypes = true := by decide
+theorem code_guards_no_columns : guardsNoColumns = true := by decide
+theorem code_empty_bucket_decoded : emptyBucketDecoded = true := by decide
+
+/-! ## the former counterexamples (witnesses corpus/C27/fixed_*.ops) -/
 
 def b8 (x : UInt8) : Bytes := [x, 0, 0, 0, 0, 0, 0, 0]
 def keyA : String := "A/1Min/V:Symbol/Timeframe/AttributeGroup"
 def keyB : String := "B/1Min/V:Symbol/Timeframe/AttributeGroup"
 
-/-- bucket A with one row, bucket B with the same columns and no rows -/
-def cexEmpty : List (String × ColumnSeries) :=
+/-- bucket A with one row, bucket B with the same columns and no rows (C27-F13 before the repair:
+B was missing from the server-side decoder's map) -/
+def exEmpty : List (String × ColumnSeries) :=
   [(keyA, ⟨[⟨"Epoch", INT64, [b8 1]⟩, ⟨"X", INT32, [[5, 0, 0, 0]]⟩], []⟩),
    (keyB, ⟨[⟨"Epoch", INT64, []⟩, ⟨"X", INT32, []⟩], []⟩)]
 
-/-- F13: the zero-length bucket B is missing from the server-side decoder's map
-(the client-side decoder keeps it) -/
-theorem C27_cex_empty :
-    ValidBuckets cexEmpty ∧ same_types cexEmpty ∧
-    (∃ n, compose cexEmpty = .ok (some n) ∧
-      n.toColumnSeriesMap = .ok [(keyA, ⟨[⟨"Epoch", INT64, [b8 1]⟩, ⟨"X", INT32, [[5, 0, 0, 0]]⟩], []⟩)] ∧
-      n.toColumnSeriesMapClient = .ok (expectCSM cexEmpty)) := by
-  refine ⟨by decide, by decide, ?_⟩
-  exact ⟨_, rfl, by decide, by decide⟩
+/-- only a series without rows (before the repair both decoders lost the columns) -/
+def exAllEmpty : List (String × ColumnSeries) := [(keyB, ⟨[⟨"Epoch", INT64, []⟩, ⟨"X", INT32, []⟩], []⟩)]
 
-/-- only zero-length series: both decoders lose the columns (names and types) -/
-def cexAllEmpty : List (String × ColumnSeries) := [(keyB, ⟨[⟨"Epoch", INT64, []⟩, ⟨"X", INT32, []⟩], []⟩)]
+example : ValidBuckets exEmpty ∧ ValidBuckets exAllEmpty := by decide
+example : RoundTrips exEmpty := C27_roundtrip exEmpty (by decide)
+example : RoundTrips exAllEmpty := C27_roundtrip exAllEmpty (by decide)
 
-theorem C27_cex_all_empty :
-    ValidBuckets cexAllEmpty ∧ same_types cexAllEmpty ∧
-    (∃ n, compose cexAllEmpty = .ok (some n) ∧ n.toColumnSeriesMap = .ok [] ∧
-      n.toColumnSeriesMapClient = .ok [(keyB, ⟨[], []⟩)]) := by
-  refine ⟨by decide, by decide, ?_⟩
-  exact ⟨_, rfl, by decide, by decide⟩
-
-/-- `X` is int32 in bucket A and float32 in bucket B: `Append` accepts it -/
-def cexTypes : List (String × ColumnSeries) :=
+/-- `X` is int32 in bucket A and float32 in bucket B (C27-F27 before the repair: accepted, B's
+column came back typed int32) -/
+def exTypes : List (String × ColumnSeries) :=
   [(keyA, ⟨[⟨"Epoch", INT64, [b8 1]⟩, ⟨"X", INT32, [[5, 0, 0, 0]]⟩], []⟩),
    (keyB, ⟨[⟨"Epoch", INT64, [b8 2]⟩, ⟨"X", FLOAT32, [[0, 0, 128, 63]]⟩], []⟩)]
 
-/-- bucket B's float32 column comes back typed int32 (the first bucket's type) -/
-theorem C27_cex_types :
-    ValidBuckets cexTypes ∧ nonempty_series cexTypes ∧
-    (∃ n, compose cexTypes = .ok (some n) ∧
-      n.toColumnSeriesMapClient = .ok
-        [(keyA, ⟨[⟨"Epoch", INT64, [b8 1]⟩, ⟨"X", INT32, [[5, 0, 0, 0]]⟩], []⟩),
-         (keyB, ⟨[⟨"Epoch", INT64, [b8 2]⟩, ⟨"X", INT32, [[0, 0, 128, 63]]⟩], []⟩)]) := by
-  refine ⟨by decide, by decide, ?_⟩
-  exact ⟨_, rfl, by decide⟩
-
-/-- with element sizes that differ (int32 vs int64) the second bucket's range is sliced with the
-first bucket's size: here the decoder panics -/
-def cexSizes : List (String × ColumnSeries) :=
-  [(keyA, ⟨[⟨"Epoch", INT64, [b8 1]⟩, ⟨"X", INT64, [b8 5]⟩], []⟩),
-   (keyB, ⟨[⟨"Epoch", INT64, [b8 2]⟩, ⟨"X", INT32, [[7, 0, 0, 0]]⟩], []⟩)]
-
-theorem C27_cex_sizes :
-    ValidBuckets cexSizes ∧ nonempty_series cexSizes ∧
-    (∃ n, compose cexSizes = .ok (some n) ∧ n.toColumnSeriesMapClient = .error "panic:slice") := by
-  refine ⟨by decide, by decide, ?_⟩
-  exact ⟨_, rfl, by decide⟩
-
-theorem C27_not_full : ¬ C27_full := by
-  intro h
-  obtain ⟨n, hc, ha, _⟩ := h cexEmpty C27_cex_empty.1
-  obtain ⟨n', hc', ha', _⟩ := C27_cex_empty.2.2
-  rw [hc] at hc'
-  have : n = n' := by injection hc' with h; injection h
-  rw [this, ha'] at ha
-  exact absurd ha (by decide)
+/-- such a dataset is now refused -/
+theorem C27_types_refused : compose exTypes = .error "err:append-types" := by decide
 
 /-! ## non-vacuity -/
 
@@ -143,8 +99,8 @@ def sample : List (String × ColumnSeries) :=
   [(keyA, ⟨[⟨"Epoch", INT64, [b8 1, b8 2]⟩, ⟨"X", FLOAT32, [[5, 0, 0, 0], [6, 0, 0, 0]]⟩], []⟩),
    (keyB, ⟨[⟨"Epoch", INT64, [b8 3]⟩, ⟨"X", FLOAT32, [[7, 0, 0, 0]]⟩], []⟩)]
 
-example : ValidBuckets sample ∧ nonempty_series sample ∧ same_types sample := by decide
-example : RoundTrips sample := C27_partial sample (by decide) (by decide) (by decide)
+example : ValidBuckets sample := by decide
+example : RoundTrips sample := C27_roundtrip sample (by decide)
 example : ∃ n, compose sample = .ok (some n) ∧ n.startIndex = [(keyA, 0), (keyB, 2)] ∧ n.nds.length = 3 :=
   ⟨_, rfl, by decide, by decide⟩
 
